@@ -30,10 +30,15 @@ class Conn(object):
 
 
 class ScriptedServer(object):
+    TX_STAGES = ('mail', 'rcpt', 'data', 'eod', 'rset')
+
     def __init__(self, world, script, lmtp=False, extensions=None,
-                 tls_context=None, label='peer'):
+                 tls_context=None, label='peer', tx_scripts=None):
         self.world = world
         self.script = script or {}
+        self.tx_scripts = tx_scripts or {}
+        self.tag = None
+        self.tx_counters = {}
         self.lmtp = lmtp
         self.extensions = list(extensions if extensions is not None else
                                ['PIPELINING', '8BITMIME', 'ENHANCEDSTATUSCODES'])
@@ -44,6 +49,14 @@ class ScriptedServer(object):
 
     # ---- script access
     def action(self, stage):
+        if stage in self.TX_STAGES and self.tag in self.tx_scripts:
+            lst = self.tx_scripts[self.tag].get(stage)
+            if not lst:
+                return {}
+            key = (self.tag, stage)
+            n = self.tx_counters.get(key, 0)
+            self.tx_counters[key] = n + 1
+            return lst[n] if n < len(lst) else lst[-1]
         lst = self.script.get(stage)
         if not lst:
             return {}
@@ -196,6 +209,9 @@ class ScriptedServer(object):
                 if self._do(stage, act, ext) is None:
                     return
                 c.cur = None
+            elif verb == b'STARTTLS' and not self.tls_context:
+                if not self._send(b'502 5.5.1 STARTTLS not offered\r\n'):
+                    return
             elif verb == b'STARTTLS':
                 act = self.action('starttls')
                 code = self._do('starttls', act)
@@ -213,12 +229,17 @@ class ScriptedServer(object):
                 if self._do('auth', self.action('auth')) is None:
                     return
             elif verb == b'MAIL':
+                a0 = arg.find(b'<')
+                a1 = arg.find(b'@')
+                self.tag = arg[a0 + 1:a1].decode('latin1') if 0 <= a0 < a1 \
+                    else None
                 act = self.action('mail')
                 code = self._do('mail', act)
                 if code is None:
                     return
                 if code[0] == '2':
-                    c.cur = {'mail': arg, 'rcpts': [], 'all_rcpts': [],
+                    c.cur = {'mail': arg, 'tag': self.tag, 'rcpts': [],
+                             'all_rcpts': [],
                              'data': None, 'content': None, 'eod': None,
                              'reset_before': True, 't': w.loop._now}
                     c.transactions.append(c.cur)
